@@ -144,6 +144,15 @@ def run(ctx):
             continue
         nw += 1
         shr = [a for a in dw if any(o.split("::")[-1] in SHRINK for o in a.ops) or not a.ops]
+        # removing exactly the tombstone of an entry that is being dropped from the delta buffer (never materialised in a chunk)
+        # is sound: a `remove(x)` whose argument comes out of the drained delta buffer is not a shrink in the rule's sense
+        if shr and all(set(o.split("::")[-1] for o in a.ops) <= {"remove", "contains"} for a in shr):
+            gx3 = FlowCx(P, g)
+            rem = [t for bi, t in g.calls() if callee_name(t).split("::")[-1] == "remove" and t["args"] and "cell:AdjacencyList.deleted" in gx3.tags(t["args"][0])]
+            if rem and all(len(t["args"]) > 1 and any(x.endswith("::drain") or x == "cell:AdjacencyList.delta_inserts" for x in gx3.tags(t["args"][1])) for t in rem):
+                ctx.ob("R5", "%s#tombstones-outlive-entries" % short_id(g.id), True,
+                       what="only the tombstones of entries dropped from the delta buffer are removed", where=g.loc())
+                continue
         if not shr:
             continue
         a4 = []
